@@ -335,6 +335,16 @@ func genCgf(o genOpts, w *bufio.Writer) {
 		fmt.Fprintf(w, "conc go\n")
 		fmt.Fprintf(w, "conc fu\n")
 	}
+	// what arrives in the billing domain is a whole CDR file: loops of creates / one-time events / pairs of sessions next to
+	// the updates of a session that stays open (every update rewrites the subscriber's file, every request transfers it)
+	fmt.Fprintf(w, "conc cgf up\n")
+	rounds := 500
+	if o.tier == "thorough" {
+		rounds = 4000
+	}
+	for j, roles := range []string{"CV", "EV", "SV"} {
+		fmt.Fprintf(w, "conc hammer %s %s %d\n", roles, hexOf([]byte(fmt.Sprintf("imsi-20896%04d%03d%03d", o.seed%10000, j, r.intn(1000)))), rounds)
+	}
 	fmt.Fprintf(w, "conc cgf off\n")
 }
 
